@@ -26,7 +26,10 @@ func (k Keeper) removeValidatorTokens(ctx sdk.Ctx, v types.Validator, tokensToRe
 	k.deleteValidatorFromStakingSet(ctx, v)
 	v = v.RemoveStakedTokens(tokensToRemove)
 	k.SetValidator(ctx, v)
-	k.SetStakedValidator(ctx, v)
+	// only a staked validator belongs in the power index (an unstaking one already left it)
+	if v.IsStaked() {
+		k.SetStakedValidator(ctx, v)
+	}
 	return v
 }
 
